@@ -438,17 +438,25 @@ theorem hit_tr (cfg : Cfg) (s : S α) (src tgt : Int) : Tr s (hit cfg s src tgt)
   refine ⟨{ d1 with curHit := none }, St.dcongr (d := d1) h2.inv.emit ?_ rfl rfl rfl rfl⟩
   rw [dst_emit _ h2.run]; rfl
 
+theorem counters_tr (cfg : Cfg) (s : S α) (src : Int) (tg : List Int) : Tr s (counters cfg s src tg) := by
+  unfold counters
+  refine Tr.foldl _ (fun s t => ?_) _ _
+  split
+  · exact hit_tr cfg s t src
+  · exact Tr.refl s
+
 theorem attack_tr (cfg : Cfg) (s : S α) (src : Int) (tg : List Int) (ty : Nat) : Tr s (attack cfg s src tg ty) := by
   unfold attack
   split
   · exact Tr.refl s
   · simp only []
     refine Tr.trans (s' := if s.inAttack.isNone && qualified ty then
-        emit { s with inAttack := some (src, ty) } (.attackStart src ty) else s) ?_
+        emit { counters cfg s src tg with inAttack := some (src, ty) } (.attackStart src ty) else s) ?_
       (Tr.foldl _ (fun s t => hit_tr cfg s src t) _ _)
     split
-    · exact ((Qt.same (s := s) (s' := { s with inAttack := some (src, ty) }) (Same.of_units rfl rfl rfl rfl rfl rfl) rfl).emit
-        (inert_attackStart _ _)).tr
+    · exact (counters_tr cfg s src tg).trans
+        (((Qt.same (s := counters cfg s src tg) (s' := { counters cfg s src tg with inAttack := some (src, ty) })
+          (Same.of_units rfl rfl rfl rfl rfl rfl) rfl).emit (inert_attackStart _ _)).tr)
     · exact Tr.refl s
 
 theorem hpPrim_tr (s : S α) (t src : Int) : Tr s (hpPrim s t src) := by
@@ -474,11 +482,19 @@ theorem addMod_ok (k src : Int) (x : U α) :
   · split <;> exact ⟨rfl, rfl, rfl⟩
   split
   · exact ⟨rfl, rfl, rfl⟩
+  split
+  · exact ⟨rfl, rfl, rfl⟩
+  split
+  · exact ⟨rfl, rfl, rfl⟩
   split <;> exact ⟨rfl, rfl, rfl⟩
 
 theorem rmMod_ok (k : Int) (x : U α) :
     (rmMod x k).id = x.id ∧ (rmMod x k).life = x.life ∧ (rmMod x k).lastAtk = x.lastAtk := by
   unfold rmMod
+  split
+  · exact ⟨rfl, rfl, rfl⟩
+  split
+  · exact ⟨rfl, rfl, rfl⟩
   split
   · exact ⟨rfl, rfl, rfl⟩
   split
